@@ -13,6 +13,7 @@ import (
 	"verif/harness/afmref"
 	"verif/harness/cmapref"
 	"verif/harness/ev"
+	"verif/harness/hostile"
 	"verif/harness/t1ref"
 )
 
@@ -105,7 +106,7 @@ func fuzzTarget(f *testing.F, target string, seeds [][]byte) {
 
 func FuzzInterp(f *testing.F) {
 	var seeds [][]byte
-	for _, tm := range templates {
+	for _, tm := range hostile.Templates {
 		seeds = append(seeds, []byte(tm))
 	}
 	seeds = append(seeds, []byte("/CIDInit /ProcSet findresource begin 12 dict begin begincmap 1 begincodespacerange <00> <ff> endcodespacerange 1 begincidchar <20> 1 endcidchar endcmap"))
